@@ -75,13 +75,13 @@ struct ConcOutcome {
 
 type Job = Box<dyn FnOnce() + Send>;
 
-/// The process's long-lived producer thread (a harness thread for good).
-fn veteran() -> &'static std::sync::mpsc::Sender<Job> {
-    static V: std::sync::OnceLock<std::sync::mpsc::Sender<Job>> = std::sync::OnceLock::new();
-    V.get_or_init(|| {
+/// The process's long-lived producer threads (harness threads for good), started one by one as they are first needed.
+fn veteran(i: usize) -> &'static std::sync::mpsc::Sender<Job> {
+    static V: [std::sync::OnceLock<std::sync::mpsc::Sender<Job>>; 4] = [std::sync::OnceLock::new(), std::sync::OnceLock::new(), std::sync::OnceLock::new(), std::sync::OnceLock::new()];
+    V[i % 4].get_or_init(|| {
         let (tx, rx) = std::sync::mpsc::channel::<Job>();
         std::thread::Builder::new()
-            .name("veteran-producer".into())
+            .name(format!("veteran-producer-{}", i % 4))
             .spawn(move || {
                 procmon::register_current();
                 while let Ok(job) = rx.recv() {
@@ -99,6 +99,24 @@ fn run_conc(cfg: &ConcCfg, rng: &mut Rng, sid: u64) -> ConcOutcome {
     set_current(None); // points are not logged in concurrent mode (too many)
     let mut viol: Vec<V> = Vec::new();
     let mut obs: Vec<(String, u64)> = Vec::new();
+    // every fourth history: before the sink of this history is built, 2^m - 1 short-lived threads each emit one metric through a
+    // scratch queuing sink and end - whatever a library keys by "the n-th thread that ever emitted" (slots, stripes,
+    // per-thread caches folded modulo a table size) then pairs this history's newcomers with the veteran
+    if rng.chance(1, 4) {
+        let k = *rng.pick(&[7usize, 15, 31, 63, 63, 127, 255]);
+        let scratch = QueuingMetricSink::from(cadence::NopMetricSink);
+        for i in 0..k {
+            let h = scratch.clone();
+            let _ = std::thread::spawn(move || {
+                let _reg = procmon::Registration::new();
+                let _ = h.emit(&format!("burn.{}:1|c", i));
+            })
+            .join();
+        }
+        drop(scratch);
+        let _ = await_no_library_thread();
+        obs.push(("short_lived_emitting_threads_before_the_producers".into(), k as u64));
+    }
     let mut builder = QueuingMetricSink::builder();
     let handler_first = sid % 2 == 0;
     if cfg.handler && handler_first {
@@ -198,7 +216,7 @@ fn run_conc(cfg: &ConcCfg, rng: &mut Rng, sid: u64) -> ConcOutcome {
     let barrier = Arc::new(Barrier::new(cfg.producers));
     let shared_q = Arc::new(q.clone());
     let mut joins = Vec::new();
-    let mut veteran_result: Option<std::sync::mpsc::Receiver<Option<String>>> = None;
+    let mut veteran_results: Vec<std::sync::mpsc::Receiver<Option<String>>> = Vec::new();
     for p in 0..cfg.producers {
         let handle: Option<QueuingMetricSink> = if cfg.shared_handle { None } else { Some(q.clone()) };
         let shq = shared_q.clone();
@@ -210,7 +228,8 @@ fn run_conc(cfg: &ConcCfg, rng: &mut Rng, sid: u64) -> ConcOutcome {
         // producer 0 of every history runs on one long-lived thread of the process (a veteran next to the newcomers
         // spawned for this history: per-thread state a library keeps - slots, stripes, caches keyed by thread - then
         // belongs to threads of very different ages)
-        let on_veteran = p == 0;
+        // (the first half of the producers, at most four)
+        let on_veteran = p < 4 && p < (cfg.producers + 1) / 2;
         let work = move || {
                     let _reg = if on_veteran { None } else { Some(procmon::Registration::new()) };
                     let tid = procmon::gettid();
@@ -253,16 +272,16 @@ fn run_conc(cfg: &ConcCfg, rng: &mut Rng, sid: u64) -> ConcOutcome {
         };
         if on_veteran {
             let (tx, rx) = std::sync::mpsc::channel::<Option<String>>();
-            veteran().send(Box::new(move || {
+            veteran(p).send(Box::new(move || {
                 let _ = tx.send(work());
             })).expect("veteran thread gone");
-            veteran_result = Some(rx);
+            veteran_results.push(rx);
         } else {
             joins.push(std::thread::Builder::new().name(format!("producer-{}", p)).spawn(work).unwrap());
         }
     }
     let mut results: Vec<Option<String>> = joins.into_iter().map(|j| j.join().ok().flatten()).collect();
-    if let Some(rx) = veteran_result {
+    for rx in veteran_results {
         results.push(rx.recv().ok().flatten());
     }
     for r in results {
